@@ -910,6 +910,45 @@ impl<'a, 'b> Gen<'a, 'b> {
         }
     }
 
+    /// (a (mod (N..) helpers.. body) (list args..)) anywhere an integer is wanted: the nested
+    /// program has its own parameters, may have its own helper, and sees nothing of the outer one
+    fn gen_nested_mod(&mut self, scope: &Scope, depth: usize) -> Expr {
+        self.feat("nested-mod");
+        self.feat("nested-mod-in-expression");
+        let np = self.c.range(1, 3);
+        let params: Vec<Pat> = (0..np).map(|_| Pat::Name(self.fresh("N"), Ty::Int)).collect();
+        let saved_fns = std::mem::take(&mut self.fns);
+        let saved_macs = std::mem::take(&mut self.macs);
+        let saved_consts = std::mem::take(&mut self.consts);
+        let saved_cfg = (self.cfg.allow_macros, self.cfg.no_defconst, self.cfg.allow_modexpr);
+        self.cfg.allow_macros = false;
+        self.cfg.no_defconst = true;
+        self.cfg.allow_modexpr = false;
+        let mut helpers = vec![];
+        if self.c.chance(110) {
+            self.feat("nested-mod-with-helper");
+            helpers.push(self.gen_helper());
+        }
+        let mut inner: Scope = vec![];
+        for p in &params {
+            pat_names(p, &mut inner);
+        }
+        let body = self.gen_expr(&Ty::Int, &inner, depth.clamp(1, 3));
+        self.fns = saved_fns;
+        self.macs = saved_macs;
+        self.consts = saved_consts;
+        self.cfg.allow_macros = saved_cfg.0;
+        self.cfg.no_defconst = saved_cfg.1;
+        self.cfg.allow_modexpr = saved_cfg.2;
+        let args: Vec<Expr> = params.iter().map(|_| self.gen_expr(&Ty::Int, scope, 1)).collect();
+        let prog = Program {
+            params: list_pat(params, Pat::Nil),
+            helpers,
+            body,
+        };
+        Expr::Apply(Box::new(Expr::ModExpr(Box::new(prog))), Box::new(Expr::List(args)))
+    }
+
     fn gen_specific(&mut self, ty: &Ty, scope: &Scope, depth: usize) -> Expr {
         let d = depth - 1;
         match ty {
@@ -917,7 +956,8 @@ impl<'a, 'b> Gen<'a, 'b> {
                 let e = self.gen_expr(&Ty::Int, scope, d);
                 Expr::Prim("logand", vec![e, Expr::Int(BigInt::from(7))])
             }
-            Ty::Int => match self.c.weighted(&[14, 3, 3, 3, 3, 2, 2, 2, 2, 2, 1]) {
+            Ty::Int => match self.c.weighted(&[14, 3, 3, 3, 3, 2, 2, 2, 2, 2, 1, if self.cfg.allow_modexpr && depth >= 2 { 2 } else { 0 }]) {
+                11 => self.gen_nested_mod(scope, d),
                 0 => {
                     let op = *self.c.choose(BIN_INT_OPS);
                     let n = if op == "*" { 2 } else { self.c.range(2, 3) };
@@ -1150,6 +1190,44 @@ impl<'a, 'b> Gen<'a, 'b> {
         n
     }
 
+    /// the value of a let/assign binding: now and then itself a binding form (binding forms
+    /// nested in binding values go through their own renaming and hoisting paths)
+    fn gen_binding_value(&mut self, t: &Ty, scope: &Scope, depth: usize) -> Expr {
+        if depth >= 1 && self.let_depth < self.let_limit && !matches!(t, Ty::Fun(_, _)) && self.c.chance(50) {
+            self.feat("binding-form-in-binding-value");
+            self.let_depth += 1;
+            let e = if self.cfg.allow_assign && self.c.chance(100) { self.gen_assign(t, scope, depth) } else if self.cfg.allow_let { self.gen_let(t, scope, depth) } else { self.gen_expr(t, scope, depth) };
+            self.let_depth -= 1;
+            return e;
+        }
+        self.gen_expr(t, scope, depth)
+    }
+
+    /// make the body of a binding form depend on one of the names it binds (otherwise a wrong
+    /// resolution of that name is invisible)
+    fn mix_in_binding(&mut self, ty: &Ty, bound: &[(String, Ty)], body: Expr) -> Expr {
+        if bound.is_empty() || !self.c.chance(110) {
+            return body;
+        }
+        let (name, vt) = bound[self.c.pick(bound.len())].clone();
+        let numeric = |t: &Ty| matches!(t, Ty::Int | Ty::Nat);
+        match ty {
+            Ty::Int if numeric(&vt) => {
+                self.feat("body-uses-binding");
+                Expr::Prim("+", vec![Expr::Var(name), body])
+            }
+            Ty::Atom if numeric(&vt) || vt == Ty::Atom => {
+                self.feat("body-uses-binding");
+                Expr::Prim("concat", vec![Expr::Var(name), body])
+            }
+            Ty::Any if !matches!(vt, Ty::Fun(_, _)) => {
+                self.feat("body-uses-binding");
+                Expr::Prim("c", vec![Expr::Var(name), body])
+            }
+            _ => body,
+        }
+    }
+
     fn gen_let(&mut self, ty: &Ty, scope: &Scope, depth: usize) -> Expr {
         let star = self.c.chance(128);
         self.feat(if star { "let*" } else { "let" });
@@ -1164,7 +1242,8 @@ impl<'a, 'b> Gen<'a, 'b> {
             while new_names.iter().any(|x| x.0 == name) {
                 name = self.fresh("L");
             }
-            let e = if star { self.gen_expr(&t, &inner, depth - 1) } else { self.gen_expr(&t, scope, depth - 1) };
+            let vis = if star { inner.clone() } else { scope.clone() };
+            let e = self.gen_binding_value(&t, &vis, depth - 1);
             binds.push((name.clone(), e));
             new_names.push((name.clone(), t.clone()));
             if star {
@@ -1172,9 +1251,10 @@ impl<'a, 'b> Gen<'a, 'b> {
             }
         }
         if !star {
-            inner.extend(new_names);
+            inner.extend(new_names.clone());
         }
         let body = self.gen_expr(ty, &inner, depth - 1);
+        let body = self.mix_in_binding(ty, &new_names, body);
         Expr::Let {
             star,
             binds,
@@ -1203,11 +1283,13 @@ impl<'a, 'b> Gen<'a, 'b> {
                 let t = self.gen_leaf_ty();
                 (Pat::Name(self.fresh("V"), t.clone()), t)
             };
-            let e = self.gen_expr(&t, &inner, depth - 1);
+            let e = self.gen_binding_value(&t, &inner, depth - 1);
             pat_names(&pat, &mut inner);
             binds.push((pat, e));
         }
         let body = self.gen_expr(ty, &inner, depth - 1);
+        let bound: Vec<(String, Ty)> = inner[scope.len()..].to_vec();
+        let body = self.mix_in_binding(ty, &bound, body);
         // permute the source order (dependencies may point forward)
         let mut idx: Vec<usize> = (0..binds.len()).collect();
         for i in (1..idx.len()).rev() {
